@@ -44,8 +44,8 @@ def run(ctx, col, tier):
                   stmt="pure")
         recursion_free(ctx, col, "R-CG", [q], f"recursion-free from {q.split('.')[-1]}")
 
-    reroot(ctx, col)
-    cat(ctx, col)
+    col.guard(reroot, ctx, col)
+    col.guard(cat, ctx, col)
 
 
 def reroot(ctx, col):
@@ -126,13 +126,34 @@ def cat(ctx, col):
               norm_src(ns.value) if ns is not None else "", f"shift amount `{amount}` is not tree.number_of_nodes()",
               stmt="shift-amount")
     # R-SENT
-    merge_if = [n for n in own_nodes(d) if isinstance(n, ast.If) and "EPS" in norm_src(n.test)]
+    def _assigned(body):
+        return {norm_src(s.targets[0]) for s in body if isinstance(s, ast.Assign)}
+    merge_if = [n for n in own_nodes(d) if isinstance(n, ast.If) and {"remove", "link_to_root"} <= _assigned(n.body)
+                and {"remove", "link_to_root"} <= _assigned(n.orelse)]
     if len(merge_if) != 1:
-        raise AnalysisError("anchor-vanished: the merge test of cat_tree")
+        raise AnalysisError("anchor-vanished: the merge / link decision of cat_tree (an `if` binding `remove` and `link_to_root` in both arms)")
     mi = merge_if[0]
-    col.check(norm_src(mi.test) == "np.linalg.norm(tree2.node(node2).xyz() - c.xyz()) < EPS", "R-SENT", q,
-              d.loc(mi), "junction nodes are merged iff they coincide (distance below the tolerance)",
-              norm_src(mi.test), f"merge test is `{norm_src(mi.test)}`", stmt="merge-test")
+    t = mi.test
+    tsrc = norm_src(t)
+    # the decision must be a coincidence test: |position(junction of tree 2) - position(junction of tree 1)| < tolerance
+    is_dist = isinstance(t, ast.Compare) and len(t.ops) == 1 and isinstance(t.ops[0], (ast.Lt, ast.LtE)) \
+        and isinstance(t.left, ast.Call) and (dotted(t.left.func) or "").endswith("linalg.norm") and t.left.args \
+        and isinstance(t.left.args[0], ast.BinOp) and isinstance(t.left.args[0].op, ast.Sub)
+    if is_dist:
+        a, b = norm_src(t.left.args[0].left), norm_src(t.left.args[0].right)
+        ends = {a, b}
+        ok = ends == {"tree2.node(node2).xyz()", "c.xyz()"} or ends == {"tree2.node(node2).xyz()", "tree.node(node1).xyz()"}
+        tol = norm_src(t.comparators[0])
+        col.check(ok and tol in ("EPS", "eps"), "R-SENT", q, d.loc(mi),
+                  "junction nodes are merged iff they coincide (distance between the two junction nodes below the tolerance)",
+                  tsrc, f"merge test `{tsrc}` does not compare the distance between the two junction nodes with the tolerance",
+                  stmt="merge-test")
+    elif not any(isinstance(x, ast.Call) and (dotted(x.func) or "").endswith(("norm", "allclose", "isclose", "distance")) for x in ast.walk(t)):
+        col.bad("R-SENT", q, d.loc(mi), "junction nodes are merged iff they coincide (distance between the two junction nodes below the tolerance)",
+                f"the merge / link decision is `{tsrc}`, which does not look at the positions of the two junction nodes: "
+                f"coincident junctions are duplicated (or distinct ones merged)", stmt="merge-test")
+    else:
+        col.unresolved("R-SENT", q, d.loc(mi), "junction nodes are merged iff they coincide", f"merge test `{tsrc}` not understood", stmt="merge-test")
     def assigns(body):
         return {norm_src(s.targets[0]): norm_src(s.value) for s in body if isinstance(s, ast.Assign)}
     a_m, a_n = assigns(mi.body), assigns(mi.orelse)
